@@ -40,6 +40,9 @@ Definition ty_int := TyInt false.
 Definition ty_float := TyFloat false.
 Definition ty_bytes := TyBytes false.
 
+(* which set() a column class resolves to (the table itself is generated from the running classes) *)
+Inductive set_kind := KIdentity | KBool | KNumeric | KChoiceList | KRef | KRefList.
+
 Inductive pyclass := CStr | CList | CInt | CFloat | CBool.
 
 (* isinstance(v, C) *)
